@@ -707,3 +707,30 @@ func errEdgeReturns(ev ssa.Value) bool {
 	}
 	return false
 }
+
+// inLoop: can block b reach itself?
+func inLoop(b *ssa.BasicBlock) bool {
+	for _, s := range b.Succs {
+		seen := map[*ssa.BasicBlock]bool{}
+		var w func(x *ssa.BasicBlock) bool
+		w = func(x *ssa.BasicBlock) bool {
+			if x == b {
+				return true
+			}
+			if seen[x] {
+				return false
+			}
+			seen[x] = true
+			for _, y := range x.Succs {
+				if w(y) {
+					return true
+				}
+			}
+			return false
+		}
+		if w(s) {
+			return true
+		}
+	}
+	return false
+}
